@@ -35,6 +35,12 @@ CHECKS = {
     "C34": ("f4", "model_checking", "TLA+ F4.tla (Cycle, Period4, OnlyDollars) with TLC; every formula x selection case replayed on cycle_reference",
             "Every formula of the token pool with every cursor position / selection; result text must be one the spec accepts; period four with the engine's own cursor and over the whole formula.",
             "Whitespace before a reference may or may not count as touched.", "4 C34"),
+    "C19": ("cases", "model_checking", "TLA+ NumberInput.tla (the number grammar of the statement on character sequences) with TLC; every string up to length 4/5 over the 13-character alphabet replayed on set_user_input",
+            "Exhaustive over the stated alphabet and length, two separator classes; stored type, exact value (to 1e-14) and format kind compared with the spec's verdict.",
+            "Strings with spaces or '/' and non-numeric strings with a leading sign carry no verdict.", "4 C19"),
+    "C20": ("cases", "model_checking", "TLA+ NumberFormat.tla (scale, round half away on the digit string, pad, group, sign, literals) with TLC; every (number, format, locale) case replayed on format_number and the cell display",
+            "Numbers with <= 3/4 significant digits x powers of ten x ~35 formats x 2 locales; expected text computed without floating point.",
+            "Family limited to 0 / 00 / #,##0 integer parts, 0-3 decimals, %, literals, (negative) section, 0.00E+00.", "4 C20"),
 }
 
 
@@ -72,7 +78,7 @@ def main():
         "engines": [
             {"name": "history", "path": "spec/History.tla, spec/MC_History.tla, spec/TraceHistory.tla, bin/fam_history.py, harness/src/{world,histrec,ops,gen,project}.rs", "serves_properties": ["C01", "C02", "C03", "C04", "C26"], "kind_free_text": "TLC model checking + bidirectional conformance"},
             {"name": "selection", "path": "spec/Selection.tla, spec/MC_Selection.tla, spec/TraceSelection.tla, harness/src/behreplay.rs", "serves_properties": ["C28"], "kind_free_text": "TLC model checking + bidirectional conformance"},
-            {"name": "cases", "path": "spec/{Calendar,Grid,Lang,F4}.tla, bin/fam_cases.py, harness/src/cases.rs", "serves_properties": ["C21", "C22", "C23", "C34"], "kind_free_text": "TLC case enumeration with expected results, replayed on the implementation"},
+            {"name": "cases", "path": "spec/{Calendar,Grid,Lang,F4,NumberInput,NumberFormat}.tla, bin/fam_cases.py, harness/src/cases.rs", "serves_properties": ["C19", "C20", "C21", "C22", "C23", "C34"], "kind_free_text": "TLC case enumeration with expected results, replayed on the implementation"},
             {"name": "structure", "path": "spec/TraceWellFormed.tla", "serves_properties": ["C27"], "kind_free_text": "TLC trace validation of a state predicate"},
         ],
         "checks": checks,
